@@ -127,6 +127,10 @@ class Obj:
         return f"{self.cls.name if self.cls else self.kind}({', '.join(f'{k}={v!r}' for k, v in self.fields.items() if k != 'lineno')})"
 
 
+class CircuitProblem(Exception):
+    """the emitted gate list cannot be given an operator (it relies on context outside the sequence)"""
+
+
 class EvalRaise(Exception):
     def __init__(self, exc_name, msg=""):
         super().__init__(f"{exc_name}: {msg}")
@@ -499,6 +503,8 @@ class Interp:
             if o.kind == "self":
                 if attr == "_debug":
                     return self.sc.debug
+                if attr in o.fields:
+                    return o.fields[attr]
                 return ("boundmethod", o, attr)
             if o.kind in ("qubit", "future"):
                 if attr in ("_conn", "connection"):
@@ -547,7 +553,7 @@ class Interp:
             return o.T
         if isinstance(o, RegSym) and attr == "name":
             return ("external", "RegisterName.Q")
-        if isinstance(o, (str, list)) and attr in ("startswith", "endswith", "append", "count", "index", "upper", "lower", "strip", "extend"):
+        if isinstance(o, (str, list, set, dict)) and not attr.startswith("_") and hasattr(o, attr):
             return getattr(o, attr)
         raise AnalysisError(f"circuit evaluation: attribute {attr} of {type(o).__name__} ({src(node)[:50] if node is not None else ''})")
 
@@ -741,6 +747,10 @@ def unitary_of(repo: Repo, ev: ConstEval, gates: List[Any], qubit_of: Dict[int, 
                 raise AnalysisError(f"set of a qubit register to virtual id {imm.value} which is not part of the scenario")
             bound[id(reg)] = virt[imm.value]
             continue
+        for rname in ("reg", "reg0", "reg1"):
+            rr = g.fields.get(rname)
+            if rr is not None and id(rr) not in bound:
+                raise CircuitProblem(f"`{mn}` acts on a register whose content (the qubit it addresses) is not established by the emitted sequence")
         if mn in ("rot_x", "rot_y", "rot_z"):
             q = g.fields.get("reg")
             n, d = g.fields["imm0"].value, g.fields["imm1"].value
